@@ -127,6 +127,9 @@ let rec gx (x : sx) : g =
   | L [A "NestedIn"; a] -> NestedIn (gx a)
   | L [A "ExtWrap"; a] -> ExtWrap (gx a)
   | L [A "Skip"; n] -> Skip (natx n)
+  | L [A "NestedDelims"; s; e; L others] ->
+      nested_delims (n_of_int (num s)) (n_of_int (num e))
+        (List.map (function L [a; b] -> (n_of_int (num a), n_of_int (num b)) | _ -> failwith "NestedDelims pair") others)
   (* text parsers: the derived grammars of coq/Model/Text.v, classes given as token sets *)
   | L [A "TextDigits"; d] -> ToSlice (RepUnit (text_digits (PTokIn (toks d))))
   | L [A "TextInt"; d; nz; z] -> text_int (PTokIn (toks d)) (PTokIn (toks nz)) (n_of_int (num z))
